@@ -70,7 +70,34 @@ var parts = []engine.AnyPart{
 		Rule: "rapid-generated scripts with Concurrency 1-4, batches larger and smaller than the limit made mostly of parking handlers, rpc.serverInfo calls mixed in, generated release and CancelRequest orders, hook delays on the invoke sites; a counter at handler entry/exit must never exceed the limit, at every quiescent point running == min(limit, dispatched and unfinished), a built-in call is not answered while all slots are parked, a call cancelled while waiting for a slot is answered -32097 and never enters; non-trivial = more dispatched parking requests than slots at some quiescent point; distinct = hash of the scenario"},
 }
 
+// stoplimit: the limit also holds while and after the server stops (retained
+// notifications are drained then, cancelled handlers may still be winding down).
+func genStop(t *rapid.T) sim.Scenario {
+	sc := gen.ShutdownScenario(t)
+	sc.Cfg.Concurrency = rapid.SampledFrom([]int{1, 1, 2, 2, 3}).Draw(t, "stoplimit")
+	return sc
+}
+
+func runStop(t *testing.T, sc sim.Scenario) engine.Verdict {
+	h := sim.Run(t, sc)
+	if h.BubbleErr != "" {
+		return engine.Verdict{Labels: []string{"other-clause:bubble-error"}} // judged by C08
+	}
+	for _, p := range oracle.LimitSafety(sc, h) {
+		return engine.Failf(p.Sig, "%s\nscript:\n%s\nhistory:\n%s", p.Msg, oracle.ScriptText(sc), oracle.HistoryText(h))
+	}
+	n := 0
+	for _, e := range h.Events {
+		if e.Kind == "enter" {
+			n++
+		}
+	}
+	return engine.Verdict{NonTrivial: n > sc.Cfg.Concurrency, Labels: []string{"shutdown-history"}}
+}
+
 func init() {
+	parts = append(parts, engine.Part[sim.Scenario]{Name: "stoplimit", Run: runStop, Gen: genStop,
+		Rule: "shutdown scripts (Stop / peer close / channel faults at any point, records before and after, parked handlers that ignore cancellation, notifications retained in the queue and drained after the stop, restart) with Concurrency 1-3: on the handler log the number of handlers entered and not exited never exceeds the limit; non-trivial = more handler invocations than slots; distinct = hash of the scenario"})
 	parts = append(parts,
 		engine.Part[sim.Scenario]{Name: "wide", Run: run, Gen: genWide,
 			Rule: "as scenarios, with Concurrency 17-33 and batches of up to 9 parking calls that are rarely released, so that more handlers are parked than the machine has CPUs and the limit is still reached; non-trivial = more dispatched parking requests than slots at some quiescent point; distinct = hash of the scenario"},
